@@ -1186,7 +1186,8 @@ pub fn derive_ex_derive(input: proc_macro::TokenStream) -> proc_macro::TokenStre
 }
 
 fn build(attr: TokenStream, item: TokenStream) -> Result<TokenStream> {
-    let mut item: Item = parse2(item)?;
+    let attr = syn_utils::parenthesize_invisible_groups(attr);
+    let mut item: Item = parse2(syn_utils::parenthesize_invisible_groups(item))?;
     let ts = match &mut item {
         Item::Struct(item_struct) => item_type::build_by_item_struct(attr, item_struct),
         Item::Enum(item_enum) => item_type::build_by_item_enum(attr, item_enum),
